@@ -227,11 +227,24 @@ class ModelTrainer:
             self.skeletons = get_skeleton_from_config(
                 chunks_config.data_config.skeletons
             )
-            self.edge_inds = self.skeletons[0].edge_inds
             self.max_height, self.max_width = (
                 chunks_config.data_config.preprocessing.max_height,
                 chunks_config.data_config.preprocessing.max_width,
             )
+            # record the parameters the chunks were generated with in the training config
+            if (
+                self.config.data_config.preprocessing.max_height is None
+                and self.config.data_config.preprocessing.max_width is None
+            ):
+                self.config.data_config.preprocessing.max_height = self.max_height
+                self.config.data_config.preprocessing.max_width = self.max_width
+            if (
+                self.model_type == "centered_instance"
+                and self.config.data_config.preprocessing.crop_hw is None
+            ):
+                self.config.data_config.preprocessing.crop_hw = (
+                    chunks_config.data_config.preprocessing.crop_hw
+                )
             # `crop_hw` is only set for centered-instance models (else it stays `None`)
             if chunks_config.data_config.preprocessing.crop_hw is not None:
                 self.crop_hw = chunks_config.data_config.preprocessing.crop_hw[0]
@@ -272,41 +285,42 @@ class ModelTrainer:
                     self.crop_hw = self.crop_hw[0]
 
             self.skeletons = train_labels.skeletons
-            # save the skeleton in the config
-            self.config["data_config"]["skeletons"] = {}
-            for skl in self.skeletons:
-                if skl.symmetries:
-                    symm = [list(s.nodes) for s in skl.symmetries]
-                else:
-                    symm = None
-                skl_name = skl.name if skl.name is not None else "skeleton-0"
-                self.config["data_config"]["skeletons"][skl_name] = {
-                    "nodes": skl.nodes,
-                    "edges": skl.edges,
-                    "symmetries": symm,
-                }
 
-            # if edges and part names aren't set in config, get it from `sio.Labels` object.
-            head_config = self.config.model_config.head_configs[self.model_type]
-            for key in head_config:
-                if "part_names" in head_config[key].keys():
-                    if head_config[key]["part_names"] is None:
-                        part_names = [x.name for x in self.skeletons[0].nodes]
-                        self.config.model_config.head_configs[self.model_type][key][
-                            "part_names"
-                        ] = part_names
+        # save the skeleton in the config
+        self.config["data_config"]["skeletons"] = {}
+        for skl in self.skeletons:
+            if skl.symmetries:
+                symm = [list(s.nodes) for s in skl.symmetries]
+            else:
+                symm = None
+            skl_name = skl.name if skl.name is not None else "skeleton-0"
+            self.config["data_config"]["skeletons"][skl_name] = {
+                "nodes": skl.nodes,
+                "edges": skl.edges,
+                "symmetries": symm,
+            }
 
-                if "edges" in head_config[key].keys():
-                    if head_config[key]["edges"] is None:
-                        edges = [
-                            (x.source.name, x.destination.name)
-                            for x in self.skeletons[0].edges
-                        ]
-                        self.config.model_config.head_configs[self.model_type][key][
-                            "edges"
-                        ] = edges
+        # if edges and part names aren't set in config, get it from the skeleton.
+        head_config = self.config.model_config.head_configs[self.model_type]
+        for key in head_config:
+            if "part_names" in head_config[key].keys():
+                if head_config[key]["part_names"] is None:
+                    part_names = [x.name for x in self.skeletons[0].nodes]
+                    self.config.model_config.head_configs[self.model_type][key][
+                        "part_names"
+                    ] = part_names
 
-            self.edge_inds = train_labels.skeletons[0].edge_inds
+            if "edges" in head_config[key].keys():
+                if head_config[key]["edges"] is None:
+                    edges = [
+                        (x.source.name, x.destination.name)
+                        for x in self.skeletons[0].edges
+                    ]
+                    self.config.model_config.head_configs[self.model_type][key][
+                        "edges"
+                    ] = edges
+
+        self.edge_inds = self.skeletons[0].edge_inds
 
         if (
             rank is None or rank == 0
